@@ -14,10 +14,14 @@ LEN_EQ = [10, 10, 10, 10]
 LEN_UNEQ = [10, 7, 9, 8]
 
 
-def akai_image(names, lens):
+AKAI_RATES = [44100, 22050, 32000, 48000]
+ROLAND_FREQS = [1, 3, 2, 0]
+
+
+def akai_image(names, lens, rates="same"):
     files = []
     for i, (nm, n) in enumerate(zip(names, lens)):
-        files.append({"name": nm, "n": n, "chain": [4 + i], "seq": i + 1})
+        files.append({"name": nm, "n": n, "chain": [4 + i], "seq": i + 1, "rate": AKAI_RATES[i % 4] if rates == "diff" else 44100})
     spec = {"parts": [{"vols": [{"name": "VOL", "dir": [3], "files": files}]}]}
     model = A.model_from_spec(spec)
     img, _ = A.build_akai(model)
@@ -25,10 +29,11 @@ def akai_image(names, lens):
     return img, pcms, "A/VOL/"
 
 
-def roland_image(names, lens):
+def roland_image(names, lens, rates="same"):
     samples = {}
     for i, (nm, n) in enumerate(zip(names, lens)):
-        samples[i] = {"name": nm, "chain": [2 + i], "points": [0, 0, n - 1, 0, n - 1], "mode": 2, "seq": i + 1}
+        samples[i] = {"name": nm, "chain": [2 + i], "points": [0, 0, n - 1, 0, n - 1], "mode": 2, "seq": i + 1,
+                      "freq": ROLAND_FREQS[i % 4] if rates == "diff" else 1}
     partials = {}
     idx = sorted(samples)
     for k in range(0, len(idx), 4):
@@ -99,9 +104,9 @@ def run_case(case):
     names = case["names"]
     lens = LEN_EQ if case["lens"] == "eq" else LEN_UNEQ
     if case["fmt"] == "akai":
-        img, pcms, prefix = akai_image(names, lens)
+        img, pcms, prefix = akai_image(names, lens, case.get("rates", "same"))
     else:
-        img, pcms, prefix = roland_image(names, lens)
+        img, pcms, prefix = roland_image(names, lens, case.get("rates", "same"))
     res = tree.full_run(img, cpu_s=30.0, ls_paths=())
     stored = [n.rstrip(" ") for n in names]
     return judge(stored, lens, res, pcms, prefix)
@@ -113,8 +118,8 @@ class Check(CheckBase):
     title = "Left/right pairs merge into one stereo file; no sample is lost or duplicated"
     rule = ("all ordered k-tuples of sibling names (every ordering of every multiset) over a near-collision alphabet: AKAI "
             "volume, 14 names, k<=3 (quick) / k<=4 (thorough), plus all 4-tuples over the reduced 6-name alphabet; Roland "
-            "performance, 9 names, k<=2 (quick) / k<=3 (thorough); equal lengths, and unequal lengths for k<=2 (quick) / all "
-            "(thorough). Oracle: every sample's position-coded PCM in exactly one channel of exactly one file; channel sum = "
+            "performance, 9 names, k<=2 (quick) / k<=3 (thorough); equal lengths, and unequal lengths and differing sample "
+            "rates for k<=2 (quick) / all (thorough). Oracle: every sample's position-coded PCM in exactly one channel of exactly one file; channel sum = "
             "sample count; unambiguous P+'L'/P+'R' pairs (P ending in blank/hyphen, exactly one of each) in one 2-channel file, "
             "L in channel 0, all frames when equal length, named after the stem when the stem is safe and unclaimed; others "
             "mono. non-trivial = tuple containing a name of the L/R form")
@@ -129,6 +134,7 @@ class Check(CheckBase):
                 cases.append({"fmt": "akai", "names": list(t), "lens": "eq"})
                 if k <= 2 or not self.quick:
                     cases.append({"fmt": "akai", "names": list(t), "lens": "uneq"})
+                    cases.append({"fmt": "akai", "names": list(t), "lens": "eq", "rates": "diff"})
         if self.quick:
             for t in itertools.product(AKAI_N4, repeat=4):
                 cases.append({"fmt": "akai", "names": list(t), "lens": "eq"})
@@ -138,6 +144,7 @@ class Check(CheckBase):
                 cases.append({"fmt": "roland", "names": list(t), "lens": "eq"})
                 if k <= 2:
                     cases.append({"fmt": "roland", "names": list(t), "lens": "uneq"})
+                    cases.append({"fmt": "roland", "names": list(t), "lens": "eq", "rates": "diff"})
         ak = [c for c in cases if c["fmt"] == "akai"]
         ro = [c for c in cases if c["fmt"] == "roland"]
         return self.chunk(ak, 60) + self.chunk(ro, 6)
